@@ -82,3 +82,29 @@ Theorem concurrent_get_refuted :
 Proof.
   exists bad_final. destruct concurrent_get_corrupts as [A [B [_ [D _]]]]. exact (conj A (conj B D)).
 Qed.
+
+(* ---- histories with pending calls: every reachable configuration ---- *)
+Theorem lru_linearizable_pending (tbl : list (String.string * lockmode * bool)) :
+  (forall o, mode_of tbl o = LockExclusive) ->
+  forall (cap : N) (P : nat -> list op) (c : cfg pst loc op res),
+    reach pst loc op res p_init p_fin p_mstep (mode_of tbl) (init_cfg pst loc op res (p_new cap) P) c ->
+    exists (ts : list nat) (compl : list (@orec op res)) l q,
+      NoDup ts /\
+      Forall2 (fun t e => th pst loc op res c t = Finished loc op res (o_call e) (o_op e) (o_res e) /\
+                          o_ret e = clk pst loc op res c) ts compl /\
+      linearization r_fspec (r_new cap) (done pst loc op res c ++ compl) l q.
+Proof.
+  intros Hx cap P c Hr.
+  destruct (exclusive_linearizable_pending pst loc op res p_init p_fin p_mstep (mode_of tbl) Hx _ _ _ Hr)
+    as [ts [compl [l [sb [Hn [Hf [Hp [Hl Ho]]]]]]]].
+  assert (Hl' : linearization p_fspec (p_new cap) (done pst loc op res c ++ compl) l sb).
+  { repeat split; try assumption. eapply legal_mono; [|exact Hl].
+    intros s o r s' H. apply seq_spec_p_step. exact H. }
+  destruct (linearizable_sim p_fspec r_fspec RP RP_step _ _ _ _ _ (RP_new cap) Hl') as [q [Hq _]].
+  exists ts, compl, l, q. split; [exact Hn|split; [exact Hf|exact Hq]].
+Qed.
+
+Theorem lru_pcert_sound c h pend inf chosen p :
+  lru_pcert c h pend inf chosen p = true ->
+  linearizable_pending rspec op res r_step (r_new c) h pend.
+Proof. apply pcert_ok_sound. exact res_eqb_spec. Qed.
